@@ -28,8 +28,19 @@ type PropDef struct {
 
 var registry = map[string]*PropDef{}
 
+// register adds rules (and their part of the explanation) to a property; several files may
+// contribute clauses to the same property.
 func register(id, explanation string, rules ...func(*Prog, *Res)) {
-	registry[id] = &PropDef{ID: id, Explanation: explanation, Rules: rules}
+	d := registry[id]
+	if d == nil {
+		d = &PropDef{ID: id}
+		registry[id] = d
+	}
+	if d.Explanation != "" {
+		d.Explanation += " || "
+	}
+	d.Explanation += explanation
+	d.Rules = append(d.Rules, rules...)
 }
 
 // runProp runs all rules of a property on a loaded program.
@@ -128,6 +139,7 @@ func main() {
 		}
 		os.Exit(1)
 	}
+	loadSecs := time.Since(t0).Seconds()
 	fmt.Printf("loaded %d packages, %d functions (incl. literals) from %s in %.1fs\n", len(p.Pkgs), len(p.FnList), absRepo, time.Since(t0).Seconds())
 	exit := 0
 	for _, id := range ids {
@@ -144,7 +156,7 @@ func main() {
 			fmt.Printf("selftest %s: %d variants applied, %d detected, %d stale, %d not statically detectable (documented)\n", id, st.Applied, st.Detected, len(st.Stale), len(st.Undetectable))
 		}
 		o := r.finish(kf)
-		wall := time.Since(t1).Seconds() + time.Since(t0).Seconds() - time.Since(t1).Seconds()
+		wall := time.Since(t1).Seconds() + loadSecs
 		if err := r.writeEvidence(*out, *tier, seed, wall, o, extra, def.Explanation); err != nil {
 			fmt.Printf("cannot write evidence: %v\n", err)
 			exit = 2
